@@ -114,7 +114,8 @@ class Link(base.BaseObject):
         :param kill: the vertex to unlink
         """
         if kill in self._vertices:
-            self._vertices.remove(kill)
+            # a vertex may be listed more than once; drop every occurrence
+            self._vertices = [v for v in self._vertices if v is not kill]
 
             if kill is not None:
                 kill.remove_from_link(self)
